@@ -1,15 +1,23 @@
 """C05 — threaded analysis: Lean theorems for every worker count, file length, budget and schedule (reads and merges in order, reader and
 merge mutual exclusion, no deadlock, bounded number of steps, final state = selected frames in file order, thread-count independence) about a
 transition-system model that is replayed against the REAL CsgApplication driven by a controlled scheduler through the VOTCA_VERIF hooks."""
-import glob, os
+import glob, os, re, sys
 import vlib, vbuild
 
 PROP = "C05"
 HARNESS = os.path.join(vlib.VERIF, "harness", "c05.cc")
 
 
+EXE_HARNESS = os.path.join(vlib.VERIF, "harness", "c05e.py")
+
+
 def build():
     return vbuild.build_exe("c05", [HARNESS], ["tools", "csg"])
+
+
+def build_stat():
+    R = vbuild.REPO
+    return vbuild.build_exe("csg_stat", [R + "/csg/src/tools/csg_stat.cc", R + "/csg/src/tools/csg_stat_imc.cc"], ["tools", "csg"])
 
 
 def run(tier, seed, replay=None):
@@ -24,8 +32,12 @@ def run(tier, seed, replay=None):
     if not ob.get("driver_ok", True):
         return ck.finish(ob, rule="-")
     if replay:
-        rc, out, err = vlib.run_harness(exe, ["replay"], stdin=open(replay, "rb").read())
+        data = open(replay, "rb").read()
+        rc, out, err = vlib.run_harness(exe, ["replay"], stdin=data)
         ck.feed("replay", out)
+        if re.search(rb"C05 enrun \d+:\d+", data):
+            rc, out, err = vlib.run_harness(sys.executable, [EXE_HARNESS, build_stat(), "ids"], stdin=data)
+            ck.feed("replay (csg_stat)", out)
         return ck.finish(ob, rule="replay of " + replay)
     corpus = b"".join(open(f, "rb").read() for f in sorted(glob.glob(os.path.join(vlib.VERIF, "corpus", PROP, "*.txt"))))
     if corpus:
@@ -43,36 +55,35 @@ def run(tier, seed, replay=None):
                 ck.aborts.append({"what": "%s: harness exited %d: %s" % (mode, rc, err[-300:]), "lines": [out.split(b"\n")[-1].decode(errors="replace")[:2000]]})
             ck.feed("schedules:%s(%d)" % (mode, arg), out)
     go(300 if tier == "quick" else 20000, 1500 if tier == "quick" else 60000, seed)
-    return ck.finish(ob, rule="-")
-    if not ob.get("driver_ok", True):
-        return ck.finish(ob, rule="-")
-    if replay:
-        rc, out, err = vlib.run_harness(exe, ["replay"], stdin=open(replay, "rb").read())
-        ck.feed("replay", out)
-        return ck.finish(ob, rule="replay of " + replay)
-    corpus = b"".join(open(f, "rb").read() for f in sorted(glob.glob(os.path.join(vlib.VERIF, "corpus", PROP, "*.txt"))))
-    if corpus:
-        rc, out, err = vlib.run_harness(exe, ["replay"], stdin=corpus)
-        ck.feed("corpus", out)
 
-    def go(n, sd):
-        rc, out, err = vlib.run_harness(exe, ["rand", n], env={"VERIF_SEED": str(sd)})
+    # executable leg: the real csg_stat, --nt 1 against --nt k, byte for byte
+    def go_exe(n, sd):
+        try:
+            stat = build_stat()
+        except vbuild.BuildError as e:
+            ob["ok"] = False
+            ob["failures"].append("csg_stat does not compile from the current source: " + str(e)[-400:])
+            return
+        rc, out, err = vlib.run_harness(sys.executable, [EXE_HARNESS, stat, "rand", str(n)], env={"VERIF_SEED": str(sd)}, timeout=3000)
         if rc != 0:
-            ck.aborts.append({"what": "harness exited %d: %s" % (rc, err[-300:]), "lines": []})
-        ck.feed("random(n=%d)" % n, out)
-    go(6000 if tier == "quick" else 150000, seed)
+            ck.aborts.append({"what": "csg_stat harness exited %d: %s" % (rc, err[-300:]), "lines": []})
+        ck.feed("csg_stat --nt 1 vs --nt k (n=%d)" % n, out)
+    go_exe(60 if tier == "quick" else 1500, seed)
     if ((not ob["ok"]) or ck.disagree) and not ck.propfail and tier == "quick":
         ck.notes.append("obligation or correspondence broken: widened search")
         go(3000, 10000, seed + 1000)
+        go_exe(300, seed + 1000)
     return ck.finish(
         ob,
         rule="each case = one complete run of the real CsgApplication (stub topology/trajectory reader, cheap evaluation) under one schedule chosen by "
              "the harness scheduler at every lock / unlock / begin / end / join point. exh: depth-first enumeration of schedules for 2 workers, 1..3 "
              "frames, budgets none/1/2, ordered and unordered (first N schedules per configuration); rand: 1..8 workers, 1..20 frames, --nframes, "
              "--first-frame, random choice at every decision. the event trace (locks with mutex roles, reads, evaluations, merges) is replayed on the "
-             "model step by step; clauses are judged on the trace itself. distinct = distinct traces",
+             "model step by step; clauses are judged on the trace itself. distinct = distinct traces. executable leg: the real csg_stat on complete generated inputs "
+             "(the C04 generator: 1-6 different frames, pair / three-body / bonded interactions, IMC, block output, frame selections) run with --nt 1 and with "
+             "--nt 2..8; every written file compared byte for byte",
         assumptions=["the scheduler serialises threads at the hook points only: data races inside EvalConfiguration and memory-model effects are not explored",
                      "pthread mutexes unlocked by another thread than the locker are modelled as binary semaphores",
                      "the unordered mode has no theorem (its budget clause is a recorded finding); its traces are judged by the trace predicates only",
-                     "executable-level byte comparison of csg_stat --nt k against --nt 1 is not run here"],
+                     "the executable leg runs under the operating system's scheduler: it samples whatever interleavings occur (the controlled-scheduler leg is the one that enumerates them)"],
         trivial_tags=())
